@@ -946,6 +946,13 @@ func (f *frame) instr(n *vnode, st *State, in ssa.Instruction) {
 			}
 		}
 	case *ssa.BinOp:
+		if (in.Op == token.OR || in.Op == token.XOR) && vc.mode != "bv" && isIntType(in.Type()) &&
+			(lowZeroBits(in.X) >= maxBits(in.Y) || lowZeroBits(in.Y) >= maxBits(in.X)) {
+			// the operands occupy disjoint bit ranges (x<<8 | y with y a byte): | and ^ are +
+			x, y := vc.term(st, in.X), vc.term(st, in.Y)
+			st.env[in] = vc.define("t", &Term{"(+ " + x.S + " " + y.S + ")", x.Sort, in.Type()})
+			break
+		}
 		st.env[in] = vc.binop(st, in.Op, vc.term(st, in.X), vc.term(st, in.Y), in.Type(), in.Pos())
 	case *ssa.UnOp:
 		switch in.Op {
